@@ -49,7 +49,24 @@ ENUM_QUICK = [
     dict(kind='simple', maxsize=1, scripts=[[[6, 0, 0, 11], [6, 0, 0, 12]], [[7, 0, 0, 0]], [[7, 0, 0, 0]]]),
     dict(kind='queue', maxsize=1, scripts=[[[0, 0, 0, 11], [0, 0, 0, 12]], [[1, 1, 1, 0]]]),
 ]
+# ALL schedules with at most K preemptions (switches away from a thread that could continue):
+# the producer is preempted at every yield point inside put, the feeder / consumer / joiner run
+BOUNDED_QUICK = [
+    dict(kind='joinable', maxsize=1, preemptions=1,
+         scripts=[[[3, 0, 1, 11]], [[1, 0, 1, 0], [4, 0, 0, 0]], [[5, 0, 0, 0]]]),
+    dict(kind='joinable', maxsize=2, preemptions=2,
+         scripts=[[[3, 0, 1, 11]], [[1, 0, 1, 0], [4, 0, 0, 0]]]),
+    dict(kind='queue', maxsize=1, preemptions=1,
+         scripts=[[[0, 0, 1, 11], [0, 0, 0, 12]], [[1, 0, 1, 0], [1, 0, 0, 0]]]),
+]
+BOUNDED_THOROUGH = [
+    dict(kind='joinable', maxsize=1, preemptions=2,
+         scripts=[[[3, 0, 1, 11]], [[1, 0, 1, 0], [4, 0, 0, 0]], [[5, 0, 0, 0]]]),
+    dict(kind='joinable', maxsize=2, preemptions=2,
+         scripts=[[[3, 0, 1, 11], [3, 0, 1, 12]], [[1, 0, 1, 0], [4, 0, 0, 0], [1, 0, 1, 0], [4, 0, 0, 0]], [[5, 0, 0, 0]]]),
+]
 ENUM_THOROUGH = [
+    dict(kind='joinable', maxsize=1, scripts=[[[3, 0, 1, 11]], [[1, 0, 1, 0], [4, 0, 0, 0]]]),
     dict(kind='queue', maxsize=1, scripts=[[[0, 0, 1, 11], [0, 1, 1, 12]], [[1, 0, 1, 0], [1, 0, 0, 0]]]),
     dict(kind='joinable', maxsize=2, scripts=[[[3, 0, 1, 11], [5, 0, 0, 0]], [[1, 0, 1, 0], [4, 0, 0, 0]]]),
 ]
@@ -152,8 +169,10 @@ def correspond(res, n):
     corpus = json.load(open(core.VERIF + '/corpus/C16.json'))
     jobs = [dict(c, mode='replay') for c in corpus]
     jobs += [dict(j, mode='enumerate', max_leaves=300) for j in ENUM_QUICK]
+    jobs += [dict(j, mode='bounded', max_leaves=1500) for j in BOUNDED_QUICK]
     if res.tier != 'quick':
         jobs += [dict(j, mode='enumerate', max_leaves=6000) for j in ENUM_THOROUGH]
+        jobs += [dict(j, mode='bounded', max_leaves=8000) for j in BOUNDED_THOROUGH]
     jobs += gen_jobs(rng, n)
     out = core.run_driver('c16_driver.py', dict(jobs=jobs), timeout=3000)
     records = out['records']
@@ -175,7 +194,7 @@ def correspond(res, n):
                               results=records[-1]['results'])],
                 rule='schedules of 2-4 processes (main thread + feeder thread Queue._feed each) running scripts of 1-4 '
                      'put/get/task_done/join calls on the real Queue / JoinableQueue / SimpleQueue (exhaustive DFS for the '
-                     'listed small configurations, seeded random otherwise; corpus first); non-trivial = a message was '
+                     'listed small configurations, ALL schedules with at most K preemptions for the preemption-bounded ones, seeded random otherwise; corpus first); non-trivial = a message was '
                      'received from the pipe and two logical threads stepped; distinct by (kind, maxsize, scripts, schedule)',
                 c16_run_ends=ends, c16_kinds=kinds, c16_call_histogram=hist,
                 c16_steps_total=sum(len(r['sched']) for r in records),
